@@ -64,4 +64,43 @@ def snapshotIf (pDirty : Bool) (added : Bool) (addedNow : Bool) : Bool :=
   else
     added
 
+/-- generated from offset_manager.go (*offsetManager).handleResponse (fragment starting at `if req.blocks[pom.topic] == nil`) -/
+def respBody (notInReq : Bool) (topicMissing : Bool) (present : Bool) (code : Int) (told0 : Int) (released0 : Bool) (committed0 : Bool) (eIncomplete : Int) (errTold : Int) (relNow : Bool) (comNow : Bool) : Int × Int × Bool × Bool :=
+  if (notInReq = true) then
+    (1, told0, released0, committed0)
+  else
+    if (topicMissing = true) then
+      let told0_v1 : Int := eIncomplete
+      (1, told0_v1, released0, committed0)
+    else
+      let err_v1 : Int := code
+      let ok_v1 : Bool := present
+      if (¬ (ok_v1 = true)) then
+        let told0_v2 : Int := eIncomplete
+        (1, told0_v2, released0, committed0)
+      else
+        if (err_v1 = 0) then
+          let committed0_v1 : Bool := comNow
+          (0, told0, released0, committed0_v1)
+        else
+          if ((((err_v1 = 6) ∨ (err_v1 = 5)) ∨ (err_v1 = 15)) ∨ (err_v1 = 16)) then
+            let released0_v1 : Bool := relNow
+            (0, told0, released0_v1, committed0)
+          else
+            if ((err_v1 = 12) ∨ (err_v1 = 28)) then
+              let told0_v3 : Int := errTold
+              (0, told0_v3, released0, committed0)
+            else
+              if (err_v1 = 14) then
+                (0, told0, released0, committed0)
+              else
+                if (err_v1 = 3) then
+                  let told0_v4 : Int := errTold
+                  let released0_v2 : Bool := relNow
+                  (0, told0_v4, released0_v2, committed0)
+                else
+                  let told0_v5 : Int := errTold
+                  let released0_v3 : Bool := relNow
+                  (0, told0_v5, released0_v3, committed0)
+
 end Gen.C06
